@@ -30,7 +30,10 @@ fn crashes(input: &Value, dir: &PathBuf, prop: &str) -> Option<String> {
     let f = dir.join("crash-candidate.json");
     std::fs::write(&f, serde_json::to_vec(input).unwrap()).ok()?;
     let exe = std::env::current_exe().ok()?;
-    let out = Command::new(exe).arg("exec-input").arg(prop).arg(&f).stdout(Stdio::null()).stderr(Stdio::piped()).output().ok()?;
+    let out = Command::new(exe).arg("exec-input").arg(prop).arg(&f).env("VERIF_CASE_LIMIT_S", "20").stdout(Stdio::null()).stderr(Stdio::piped()).output().ok()?;
+    if out.status.code() == Some(crate::sim::EXIT_NEVER_QUIESCENT) {
+        return Some("never quiescent: a server task keeps itself runnable forever (busy loop); the paused clock cannot advance".to_string());
+    }
     if out.status.code().is_none() || out.status.code() == Some(134) || out.status.code() == Some(101) {
         let err = String::from_utf8_lossy(&out.stderr);
         let line = err.lines().rev().find(|l| !l.trim().is_empty()).unwrap_or("").to_string();
@@ -42,7 +45,8 @@ fn crashes(input: &Value, dir: &PathBuf, prop: &str) -> Option<String> {
 
 fn minimise_crash(mut input: Value, dir: &PathBuf, prop: &str) -> (Value, String) {
     let mut why = crashes(&input, dir, prop).unwrap_or_else(|| "process died (not reproduced in isolation)".to_string());
-    let mut budget = 400;
+    let spinning = why.starts_with("never quiescent");
+    let mut budget = if spinning { 14 } else { 400 };
     loop {
         let n = input.pointer("/case/ops").and_then(|o| o.as_array()).map(|a| a.len()).unwrap_or(0);
         let mut progressed = false;
@@ -149,9 +153,10 @@ pub fn run_check(prop: &str, tier: Tier) -> i32 {
         if let Some(c) = crashed_inputs.first() {
             let input = c.get("input").cloned().unwrap_or(Value::Null);
             let (min, why) = minimise_crash(input, &dir, prop);
+            let spinning = why.starts_with("never quiescent");
             merged.failure = Some(Failure {
-                rule: "process_abort".into(),
-                detail: format!("the server code aborted the process while running this input: {}", why),
+                rule: if spinning { "never_quiescent".into() } else { "process_abort".into() },
+                detail: if spinning { format!("while running this input the simulated server never becomes quiescent: {}", why) } else { format!("the server code aborted the process while running this input: {}", why) },
                 engine: min.get("engine").and_then(|e| e.as_str()).unwrap_or("sim").to_string(),
                 input: min,
                 trace: json!({"worker": c}),
@@ -164,6 +169,16 @@ pub fn run_check(prop: &str, tier: Tier) -> i32 {
     let mut violations = 0;
     let mut exit = 0;
     let mut replay_path = None;
+    // a system that never becomes quiescent is a violation of the liveness properties (C06: a
+    // waiting consumer is served without further requests; C07: every request terminates after
+    // bounded work); for the other properties it only makes the run inconclusive
+    if let Some(f) = &merged.failure {
+        if f.rule == "never_quiescent" && !["C06", "C07"].contains(&prop) {
+            let p = write_replay(prop, f);
+            infra_problem = Some(format!("a case made the simulated server spin forever (see {}); this is reported by the C06/C07 checks", p.display()));
+            merged.failure = None;
+        }
+    }
     if let Some(f) = &merged.failure {
         violations = 1;
         let p = write_replay(prop, f);
@@ -247,6 +262,7 @@ pub fn run_worker_process(args: &[String]) -> i32 {
     let ctx = WorkerCtx { prop, tier, seed, widx, nworkers: n, inflight: dir.join(format!("inflight-{}.json", widx)), findings: load_findings() };
     crate::sim::init_epoch();
     crate::sim::install_panic_hook();
+    crate::sim::install_watchdog(std::env::var("VERIF_CASE_LIMIT_S").ok().and_then(|s| s.parse().ok()).unwrap_or(90));
     let out = props::run_worker(&ctx);
     let _ = std::fs::write(dir.join(format!("out-{}.json", widx)), serde_json::to_vec(&out).unwrap());
     0
